@@ -11,7 +11,7 @@ from vf import build, busproc, client, fdpass, gen, report
 from vf.models import fdflow
 
 PROP = "C15"
-RULE = ("histories of 6..22 steps on a fresh ASan bus (LeakSanitizer on) with random max_message_unix_fds (1..16), "
+RULE = ("histories of 8..30 steps on a fresh ASan bus (LeakSanitizer on) with random max_message_unix_fds (1..16), "
         "max_incoming_unix_fds, pending_fd_timeout (default or 300..500 ms), max_message_size (default or 1..4 KiB) and a "
         "policy with <deny send_destination=... min_fds=.../> rules; 2..4 raw clients that did / did not negotiate "
         "descriptor passing, some owning well-known names, some holding a broadcast match rule. Steps: method calls "
@@ -96,6 +96,8 @@ class History(object):
         self.config = None
         self.ntransmit = 0
         self.cur_cls = "start"
+        self.reported_held = set()
+        self.gone = set()
 
     # ------------------------------------------------------------------ plumbing
     def witness(self, extra=None):
@@ -179,16 +181,23 @@ class History(object):
         return c
 
     def await_gone(self, unique):
-        """Read at the observer until the bus announces that `unique` is gone, then a barrier."""
-        while True:
+        """Read at the observer until the bus has announced that `unique` is gone, then a barrier."""
+        while unique not in self.gone:
             rec = self.obs.recv(timeout=client.WATCHDOG)
             m = rec.msg
             k = m.known()
             if m.type == 4 and k.get(3) == b"NameOwnerChanged" and k.get(7) == b"org.freedesktop.DBus" \
-                    and len(m.body) == 3 and m.body[0] == unique and m.body[2] == b"":
-                break
+                    and len(m.body) == 3 and m.body[0][:1] == b":" and m.body[2] == b"":
+                self.gone.add(m.body[0])
         self.obs.barrier()
-        self.obs.take_inbox()
+        self.note_gone(self.obs.take_inbox())
+
+    def note_gone(self, recs):
+        for rec in recs:
+            m = rec.msg
+            if m.type == 4 and m.known().get(3) == b"NameOwnerChanged" and len(m.body) == 3 and m.body[0][:1] == b":" \
+                    and m.body[2] == b"" and m.known().get(7) == b"org.freedesktop.DBus":
+                self.gone.add(m.body[0])
 
     def forget(self, c):
         """c is gone (closed by us or by the bus) and the bus has announced it."""
@@ -206,7 +215,18 @@ class History(object):
         return [c for c in self.clients.values() if not self.mc(c).stalled and self.mc(c).partial is None]
 
     # ------------------------------------------------------------------ descriptor-table checks
+    def probe_of_link(self, link):
+        for p in self.factory.all:
+            if p.link == link:
+                return p
+        return None
+
     def check_held(self, cls):
+        # libdbus releases a message it has written when it next unlocks the connection, i.e. at the end of the
+        # write iteration - possibly just after the recipient has read its barrier reply.  One more round-trip,
+        # started now, is necessarily handled in a later main-loop iteration of the (single-threaded) bus.
+        self.obs.barrier()
+        self.note_gone(self.obs.take_inbox())
         tab = self.daemon.open_fds()
         if tab is None:
             return
@@ -216,19 +236,16 @@ class History(object):
         if held:
             self.part.count("fd-table-checks-with-descriptors-held")
         extra = held - allowed
+        for l in list(extra):
+            if l in self.reported_held:
+                del extra[l]
         if extra:
             probes = [self.factory.by_link[l] for l in extra]
+            self.reported_held.update(extra)
             self.violation("fd-held:%s" % probes[0].op_class,
                            "at a quiescent point after '%s' the bus still has %d probe descriptor(s) open that no live "
                            "connection may have pending: %r" % (cls, sum(extra.values()), probes[:6]),
                            {"held": sorted(extra.elements())[:10]})
-            # do not report the same descriptors again at every later step
-            for p in probes:
-                self.factory.by_link.pop(p.link, None)
-                self.leaked_reported = True
-        for mcn in self.model.conns.values():
-            if len(mcn.q) > self.M:
-                self.violation("pending-over-limit", "model bookkeeping: more unclaimed descriptors than max_message_unix_fds")
 
     def check_final(self):
         tab = self.daemon.open_fds()
@@ -240,11 +257,7 @@ class History(object):
         missing = base - fin
         self.part.count("final-table-checks")
         if surplus:
-            probes = [self.factory.by_link[l] for l in surplus if l in self.factory.by_link]
-            if getattr(self, "leaked_reported", False) and not probes:
-                surplus_np = [l for l in surplus if l not in [p.link for p in self.factory.all]]
-                if not surplus_np:
-                    return
+            probes = [self.probe_of_link(l) for l in surplus if self.probe_of_link(l) is not None]
             cls = probes[0].op_class if probes else "non-probe"
             self.violation("fd-leak:%s" % cls,
                            "after all connections were closed the bus has %d descriptor(s) more than its baseline: %r"
@@ -276,15 +289,26 @@ class History(object):
                 struct.pack_into("<I", data, boff, struct.unpack_from("<I", data, boff)[0] + 7)
             elif spec.malformed == "body-nul" and body_len >= 4:
                 data[-1] = 0x78
-            elif spec.malformed == "fields-len":
-                struct.pack_into("<I", data, 12, struct.unpack_from("<I", data, 12)[0] + 3)
-                # keep the announced total unchanged so that the bus waits for exactly the bytes we send
-                struct.pack_into("<I", data, 4, max(0, body_len - 8) if body_len >= 8 else body_len)
+            elif spec.malformed == "fields-len" and self._grow_fields(data, body_len):
+                pass
             else:
                 spec.malformed = "version"
                 data[3] = 2
             data = bytes(data)
         return serial, data
+
+    @staticmethod
+    def _grow_fields(data, body_len):
+        """Header field array announced 3 bytes longer, total announced length unchanged (so that the bus waits
+        for exactly the bytes that are written and then finds the array malformed)."""
+        flen = struct.unpack_from("<I", data, 12)[0]
+        hlen = 16 + flen + 3
+        hlen += (-hlen) % 8
+        if len(data) - hlen < 0:
+            return False
+        struct.pack_into("<I", data, 12, flen + 3)
+        struct.pack_into("<I", data, 4, len(data) - hlen)
+        return True
 
     def pieces(self, spec, data):
         rng = self.rng
@@ -334,14 +358,16 @@ class History(object):
             if mcn.stalled or mcn.partial is not None:
                 continue
             if c is S:
-                if s_alive:
-                    boxes[c.unique] = c.take_inbox()
-                else:
+                if not s_alive and not c.closed:
                     c.pump()
-                    boxes[c.unique] = c.take_inbox()
+                boxes[c.unique] = c.take_inbox()
                 continue
             c.barrier()
             boxes[c.unique] = c.take_inbox()
+        for u, recs in boxes.items():
+            c = self.clients[u]
+            if self.mc(c).inflight and not (c is S and not s_alive):
+                self.drain_inflight(c, recs)
         return s_alive, boxes
 
     def judge_generic(self, boxes, cls):
@@ -360,9 +386,7 @@ class History(object):
             if c.stray_fds():
                 self.violation("stray-fds:%s" % cls, "connection %s received %d descriptor(s) that no message announces"
                                % (u.decode(), len(c.stray_fds())))
-                for fd in c.stray_fds():
-                    pass
-                c.fdbuf = []
+                c.fdbuf = []      # still owned (and finally closed) through all_fds
             for a in c.anomalies:
                 self.violation("%s:%s" % (a[0], cls), "at %s: %s" % (u.decode(), a[1]))
             c.anomalies = []
@@ -387,8 +411,7 @@ class History(object):
                 return
 
     def transmit(self, S, spec, partial_resume=None):
-        """Send one message from S and judge what happens.  Returns the outcome class observed."""
-        rng = self.rng
+        """Send one message from S and judge what happens.  Returns the outcome class predicted."""
         ms = self.mc(S)
         self.ntransmit += 1
         self.part.evaluations += 1
@@ -403,43 +426,52 @@ class History(object):
                           [(len(d), len(f)) for d, f in pcs], q_before,
                           " malformed=%s" % spec.malformed if spec.malformed else "",
                           " bytes=%d" % len(data) if len(data) > self.max_size else ""))
+            candidates = list(ms.q) + list(spec.fds)
             ok = self.write(S, pcs)
             pre = None
             for i, (d, f) in enumerate(pcs):
                 if f:
                     pre = self.model.absorb(ms, spec.fds, first_byte=(i == 0))
-            size = len(data)
             legal = (spec.relation in ("eq", "none") and spec.placement != "late" and q_before == 0
-                     and not spec.malformed and size <= self.max_size and (ms.negotiated or not spec.fds))
+                     and not spec.malformed and len(data) <= self.max_size and (ms.negotiated or not spec.fds))
         else:
-            serial, data, rest, pre, legal = partial_resume
+            serial, data, rest, pre, legal, candidates = partial_resume
             self.step("resume from=%s serial=%d remaining-pieces=%r" % (self.name_of(S), serial, [(len(d), len(f)) for d, f in rest]))
             ok = self.write(S, rest)
-            size = len(data)
+        size = len(data)
         cls = "%s/%s/%s/%s" % (spec.kind, spec.dest_class, spec.relation, spec.placement)
         self.cur_cls = cls
-        for p in spec.fds:
-            p.op_class = cls
-        ambiguous = (pre == "ambiguous")
         if pre == "disconnect:too-many-fds":
             out = fdflow.Outcome("disconnect", "too-many-fds")
-        elif ambiguous:
-            # compute the outcome as if the descriptors were not seen; the other candidate is 'as if seen'
+        elif pre == "ambiguous":
             out = fdflow.Outcome("ambiguous")
         else:
-            out = self.model.route(ms, spec.mtype, spec.dest, spec.h, size, bool(spec.malformed))
+            out = self.model.route(ms, spec.mtype, spec.dest, spec.h, size, bool(spec.malformed),
+                                   requested_reply=(spec.mtype == 2))
+        ambiguous = out.kind == "ambiguous" or spec.then_close
+        # class used in violation keys: the outcome class (few, stable), not the full description of the step
+        kcls = "sender-closes" if spec.then_close else out.cls
+        if spec.relation in ("less", "none-but-attached"):
+            kcls += "/surplus"
+        if spec.placement in ("late", "split-stall"):
+            kcls += "/" + spec.placement
+        for p in spec.fds:
+            p.op_class = kcls
+        # messages for connections that are not reading wait for them (inside the bus or in their socket)
+        waiting = []
+        if out.kind in ("deliver", "broadcast"):
+            for mcn in out.recipients:
+                if mcn.stalled or mcn.partial is not None:
+                    mcn.inflight.append((S.unique, serial, list(out.fds), spec.mtype, ambiguous))
+                    waiting.append(mcn.unique)
+                    self.part.count("queued-for-connection-not-reading")
         if spec.then_close:
             self.step("  sender %s closes right after writing" % self.name_of(S))
             S.close()
-            for p in out.fds:
-                pass
-            ambiguous = True
         s_alive = ok and not spec.then_close
         s_alive, boxes = self.settle(S, s_alive)
-        if spec.then_close:
-            s_alive = False
         observed_disc = not s_alive and not spec.then_close
-        self.judge_generic(boxes, cls)
+        self.judge_generic(boxes, kcls)
 
         # -- who received (S, serial)?
         got = {}
@@ -448,39 +480,40 @@ class History(object):
                 k = rec.msg.known()
                 if k.get(7) == S.unique and rec.msg.serial == serial and rec.msg.type == spec.mtype:
                     got.setdefault(u, []).append(rec)
-        errors = [rec for rec in boxes.get(S.unique, []) if rec.msg.type == 3 and rec.msg.known().get(5) == serial
-                  and rec.msg.known().get(7) == b"org.freedesktop.DBus"]
-        driver_replies = [rec for rec in boxes.get(S.unique, []) if rec.msg.type in (2, 3) and rec.msg.known().get(5) == serial
-                          and rec.msg.known().get(7) == b"org.freedesktop.DBus"]
-
+        from_bus = [rec for rec in boxes.get(S.unique, []) if rec.msg.type in (2, 3) and rec.msg.known().get(5) == serial
+                    and rec.msg.known().get(7) == b"org.freedesktop.DBus"]
+        errors = [rec for rec in from_bus if rec.msg.type == 3]
         if not s_alive:
             self.forget(S)
-
         observed = "disconnect" if observed_disc else ("delivered" if got else ("error" if errors else "nothing"))
         self.part.count("observed:" + observed)
+        for u, recs in got.items():
+            if len(recs) > 1:
+                self.violation("delivered-%d-times:%s" % (len(recs), kcls), "message delivered %d times to %s" % (len(recs), u.decode()))
 
-        if ambiguous or out.kind == "ambiguous":
-            # only generic judgement: whatever arrived must be descriptors of this sender, intact, at most once
+        if ambiguous:
+            # timing decides what the bus saw: whatever arrived must be descriptors this sender wrote for it, intact
             self.part.count("outcome:ambiguous")
             self.part.sig(spec.kind, spec.dest_class, spec.relation, spec.placement, "ambiguous:" + observed)
             for u, recs in got.items():
-                if len(recs) > 1:
-                    self.violation("delivered-%d-times:%s" % (len(recs), cls), "message delivered %d times to %s" % (len(recs), u.decode()))
-                cand = out.fds if out.kind != "ambiguous" else (ms.q + ms.uncertain if ms.alive else spec.fds)
-                cand_all = list(out.fds) + list(spec.fds)
-                for rec in recs:
-                    for fd in rec.fds:
-                        p = self.factory.identify(fd)
-                        if p is None or (p not in cand_all and p not in cand):
-                            self.violation("fd-mismatch:other-file:%s" % cls, "a descriptor delivered to %s is not one the "
-                                           "sender attached (%r)" % (u.decode(), p))
-                    tgt = self.model.conns.get(u)
-                    if tgt is not None and tgt.stalled:
-                        continue
-            if not observed_disc and S.unique in self.clients and out.kind == "ambiguous":
-                # end the ambiguity: this connection leaves
-                self.close_client(S, "after an ambiguous step")
-            self.check_held(cls)
+                if out.kind in ("deliver", "broadcast"):
+                    if u not in [c.unique for c in out.recipients]:
+                        self.violation("unexpected-delivery:%s" % kcls, "message delivered to %s" % u.decode())
+                    else:
+                        self.compare_fds(recs[0], out.fds, kcls, u.decode())
+                    continue
+                self.part.count("deliveries-compared")
+                seen = []
+                for fd in recs[0].fds:
+                    p = self.factory.identify(fd)
+                    if p is None or p not in candidates or p in seen or self.factory.mismatch(fd, p):
+                        self.violation("fd-mismatch:other-file:%s" % kcls, "a descriptor delivered to %s is not one the "
+                                       "sender wrote for this message (%r)" % (u.decode(), p))
+                    seen.append(p)
+            if out.kind == "ambiguous" and S.unique in self.clients:
+                self.close_client(S, "after a timing-dependent step")      # end the ambiguity
+            else:
+                self.check_held(cls)
             return "ambiguous"
 
         self.part.count("outcome:" + out.cls)
@@ -489,17 +522,17 @@ class History(object):
         if out.kind == "disconnect":
             if not observed_disc:
                 # the property does not demand a disconnect; what it demands (nothing delivered wrongly, nothing
-                # leaked) is judged below and by the table checks
+                # leaked) is judged here and by the table checks
                 self.mismatch("not-disconnected:" + out.why, "expected the bus to drop %s" % S.unique.decode())
             for u, recs in got.items():
-                self.violation("unexpected-delivery:%s:%s" % (out.cls, cls), "a message the bus had to reject (%s) was "
+                self.violation("unexpected-delivery:%s" % kcls, "a message the bus had to reject (%s) was "
                                "delivered to %s with %d descriptors" % (out.cls, u.decode(), len(recs[0].fds)))
             self.check_held(cls)
             return out.cls
 
         if observed_disc:
             if legal:
-                self.violation("sender-dropped:%s" % cls, "the bus disconnected %s although its message was well-formed, "
+                self.violation("sender-dropped:%s" % kcls, "the bus disconnected %s although its message was well-formed, "
                                "announced exactly the attached descriptors and respected every limit" % S.unique.decode())
             else:
                 self.mismatch("unexpected-disconnect:" + out.cls, "bus dropped %s" % S.unique.decode())
@@ -508,25 +541,17 @@ class History(object):
 
         want = {c.unique: c for c in out.recipients} if out.kind in ("deliver", "broadcast") else {}
         for u, recs in got.items():
-            if len(recs) > 1:
-                self.violation("delivered-%d-times:%s" % (len(recs), cls), "message delivered %d times to %s" % (len(recs), u.decode()))
             if u not in want:
-                self.violation("unexpected-delivery:%s:%s" % (out.cls, cls),
+                self.violation("unexpected-delivery:%s" % kcls,
                                "message delivered to %s with %d descriptors although the expected outcome is %s"
                                % (u.decode(), len(recs[0].fds), out.cls))
                 continue
-            self.compare_fds(recs[0], out.fds, cls, u.decode())
+            self.compare_fds(recs[0], out.fds, kcls, u.decode())
         for u, mcn in want.items():
-            if mcn.stalled:
-                mcn.inflight.append((S.unique, serial, list(out.fds), spec.mtype))
-                self.part.count("queued-for-stalled-recipient")
-                continue
-            if mcn.partial is not None:
-                # cannot run a barrier on it; it will see the message when it is usable again
-                mcn.inflight.append((S.unique, serial, list(out.fds), spec.mtype))
+            if u in waiting:
                 continue
             if u not in got and u in self.clients:
-                self.violation("lost:%s" % cls, "message with %d descriptors was not delivered to %s (expected %s)"
+                self.violation("lost:%s" % kcls, "message with %d descriptors was not delivered to %s (expected %s)"
                                % (len(out.fds), u.decode(), out.cls))
         if out.kind == "refuse" and spec.expects_reply:
             if len(errors) != 1:
@@ -534,19 +559,51 @@ class History(object):
                                "method call refused (%s) but the caller received %d error replies" % (out.cls, len(errors)))
             else:
                 self.part.count("refusal-error-seen")
-        if out.kind == "driver" and spec.expects_reply and spec.dest is not None:
-            if len(driver_replies) != 1:
-                self.violation("driver-replies-%d" % len(driver_replies), "call to the bus driver carrying descriptors got %d replies"
-                               % len(driver_replies))
+        if out.kind == "driver" and spec.expects_reply:
+            if len(from_bus) != 1:
+                self.violation("driver-replies-%d" % len(from_bus), "call to the bus driver carrying descriptors got %d replies"
+                               % len(from_bus))
         self.check_held(cls)
 
         # -- the callee answers (a reply is a descriptor carrier too)
         if out.kind == "deliver" and spec.expects_reply:
-            R = self.clients.get(out.recipients[0].unique)
             mr = out.recipients[0]
-            if R is not None and not mr.stalled and mr.partial is None and R.unique in got:
+            R = self.clients.get(mr.unique)
+            if R is not None and mr.unique not in waiting and R.unique in got and S.unique in self.clients:
                 self.op_reply(R, S, serial)
         return out.cls
+
+    def drain_inflight(self, R, recs=None):
+        """R reads again: everything accepted for it meanwhile must arrive, once, in order, intact."""
+        mr = self.mc(R)
+        if recs is None:
+            R.barrier()
+            recs = R.take_inbox()
+            self.judge_generic({R.unique: recs}, "drain")
+        if not mr.inflight:
+            return
+        probes = [rec for rec in recs if rec.msg.known().get(3) != b"Filler" and rec.msg.known().get(7) != b"org.freedesktop.DBus"]
+        exp = list(mr.inflight)
+        mr.inflight = []
+        self.part.count("drained-messages", len(exp))
+        keys = [(rec.msg.known().get(7), rec.msg.serial) for rec in probes]
+        arrived = []
+        for (su, serial, fds, mtype, optional) in exp:
+            n = keys.count((su, serial))
+            if n == 0:
+                if not optional:
+                    self.violation("lost:queued-for-connection-not-reading", "a message with %d descriptors accepted for %s "
+                                   "while it was not reading never arrived" % (len(fds), R.unique.decode()))
+                continue
+            if n > 1:
+                self.violation("delivered-%d-times:queued" % n, "queued message delivered repeatedly")
+            arrived.append((su, serial))
+            self.compare_fds(probes[keys.index((su, serial))], fds, "queued-for-connection-not-reading", R.unique.decode())
+        order = [k for k in keys if k in arrived]
+        for su in set(k[0] for k in arrived):
+            if [k[1] for k in order if k[0] == su] != [k[1] for k in arrived if k[0] == su]:
+                self.violation("order:queued", "queued messages of one sender arrived out of order")
+        self.part.sig("drain", min(len(exp), 4), len(arrived) == len(exp))
 
     # ------------------------------------------------------------------ operations
     def new_fds(self, n):
@@ -556,8 +613,10 @@ class History(object):
         """(attached, header, relation)"""
         rng = self.rng
         M = self.M
-        a = rng.choice([0, 1, 1, 2, 3, max(0, M - 1), M, M, M + 1, M + 2])
-        rel = rng.choice(["eq"] * 6 + ["less", "more", "none"])
+        a = rng.choice([0, 1, 1, min(2, M), min(3, M), max(0, M - 1), M, M, rng.randint(0, M), rng.randint(0, M)])
+        if rng.random() < 0.07:
+            a = M + rng.randint(1, 2)
+        rel = rng.choice(["eq"] * 8 + ["less", "less", "more", "none"])
         if rel == "less" and (a == 0 or not allow_surplus):
             rel = "eq"
         if rel == "eq":
@@ -585,11 +644,8 @@ class History(object):
                 return rng.choice(gone).unique, "missing"
         R = rng.choice(others)
         mr = self.mc(R)
-        if mr.stalled or mr.partial is not None:
-            inflight = sum(len(x[2]) for x in mr.inflight)
-            mine = sum(len(x[2]) for c in self.model.conns.values() for x in c.inflight if x[0] == S.unique)
-            if inflight + (h or 0) > INFLIGHT_CAP or mine + (h or 0) > self.max_incoming - 1:
-                return NAME_MISSING, "missing"
+        if (mr.stalled or mr.partial is not None) and not self.budget_ok(S, h or 0, [mr]):
+            return NAME_MISSING, "missing"
         dest = R.unique
         if mr.names and rng.random() < 0.6:
             dest = sorted(mr.names)[0]
@@ -605,12 +661,30 @@ class History(object):
             cls = "not-negotiated"
         return dest, cls
 
+    def not_reading(self):
+        return [m for m in self.model.conns.values() if m.stalled or m.partial is not None]
+
+    def budget_ok(self, S, h, targets):
+        """Descriptors of messages waiting inside the bus count against the sender's max_incoming_unix_fds and the
+        recipient's max_outgoing_unix_fds; stay below both so that the bus keeps reading from S."""
+        if not h or not targets:
+            return True
+        mine = sum(len(x[2]) for c in self.model.conns.values() for x in c.inflight if x[0] == S.unique)
+        if mine + h * len(targets) > self.max_incoming - 1:
+            return False
+        for m in targets:
+            if sum(len(x[2]) for x in m.inflight) + h > INFLIGHT_CAP:
+                return False
+        return True
+
     def op_send(self, S):
         rng = self.rng
         ms = self.mc(S)
         short = self.timeout_ms is not None
         a, h, rel = self.choose_counts(S)
         kind = rng.choice(["call-noreply"] * 3 + ["call"] * 3 + ["signal"] * 2 + ["bcast"] * 2 + ["driver"])
+        if kind == "bcast" and not self.budget_ok(S, h, [m for m in self.not_reading() if m.match and m.negotiated]):
+            kind = "driver"
         spec = Spec(kind=kind, h=h, relation=rel)
         if kind == "bcast":
             spec.mtype, spec.iface, spec.member, spec.dest_class = 4, SIG_IFACE, b"Changed", "broadcast"
@@ -626,6 +700,8 @@ class History(object):
         pl = rng.random()
         if a and pl < 0.1:
             spec.placement = "late"
+            if ms.q and (kind == "bcast" or (self.model.owner(spec.dest) in self.not_reading())) and self.not_reading():
+                spec.placement = "first"     # keep timing-dependent outcomes away from connections that cannot barrier
         elif pl < 0.25 and not (short and a):
             spec.placement = "chunked"
         spec.fds = self.new_fds(a)
@@ -705,8 +781,9 @@ class History(object):
         cls = "%s/%s/eq/split-stall" % (spec.kind, spec.dest_class)
         self.cur_cls = cls
         for p in spec.fds:
-            p.op_class = cls
+            p.op_class = "split-stall"
         q_before = len(ms.q)
+        candidates = list(ms.q) + list(spec.fds)
         self.step("split-stall from=%s serial=%d dest=%s(%s) attached=%d first-part=%d of %d bytes pending-before=%d" % (
             self.name_of(S), serial, spec.dest.decode(), spec.dest_class, a, cut, len(data), q_before))
         self.part.evaluations += 1
@@ -728,10 +805,9 @@ class History(object):
             self.forget(S)
             self.check_held(cls)
             return
-        ms.partial = (spec, serial, data, [(data[cut:], [])], pre, legal)
+        ms.partial = (spec, serial, data, [(data[cut:], [])], pre, legal, candidates)
         if self.timeout_ms is not None and ms.q:
             self.part.sig("split-stall", spec.dest_class, "timeout")
-            ms_partial = ms.partial
             self.check_held(cls)
             ms.partial = None
             self.await_timeout(S, "split-stall")
@@ -742,13 +818,11 @@ class History(object):
     def op_resolve_partial(self, S):
         rng = self.rng
         ms = self.mc(S)
-        spec, serial, data, rest, pre, legal = ms.partial
+        spec, serial, data, rest, pre, legal, candidates = ms.partial
         r = rng.random()
         if r < 0.6:
             ms.partial = None
-            cls = self.transmit(S, spec, partial_resume=(serial, data, rest, pre, legal))
-            if S.unique in self.clients:
-                self.drain_inflight(S)
+            cls = self.transmit(S, spec, partial_resume=(serial, data, rest, pre, legal, candidates))
             self.after_surplus(S, cls)
         else:
             self.part.sig("split-stall", "abandon")
@@ -778,6 +852,8 @@ class History(object):
         a = rng.choice([1, 2, self.M])
         if self.mc(S).q:
             return self.close_client(S, "with descriptors pending")
+        if not self.mc(S).negotiated:
+            return self.op_send(S)
         spec = Spec(kind=rng.choice(["call-noreply", "signal"]), h=a, relation="eq", then_close=True)
         spec.mtype = 4 if spec.kind == "signal" else 1
         spec.flags = 1
@@ -788,7 +864,7 @@ class History(object):
             spec.placement = "truncated"
             serial, data = self.encode(S, spec)
             cut = rng.randint(1, len(data) - 1)
-            cls = "%s/%s/eq/truncated-then-close" % (spec.kind, spec.dest_class)
+            cls = "truncated-then-close"
             for p in spec.fds:
                 p.op_class = cls
             self.step("truncated from=%s serial=%d dest=%s attached=%d first-part=%d of %d bytes, then close" % (
@@ -807,7 +883,7 @@ class History(object):
             for uu, recs in boxes.items():
                 for rec in recs:
                     if rec.msg.known().get(7) == u and rec.msg.serial == serial:
-                        self.violation("unexpected-delivery:truncated:%s" % cls, "half of a message was delivered to %s" % uu.decode())
+                        self.violation("unexpected-delivery:%s" % cls, "half of a message was delivered to %s" % uu.decode())
             self.part.sig("truncated-then-close", spec.dest_class)
             self.part.count("outcome:truncated-then-close")
             self.check_held(cls)
@@ -818,8 +894,8 @@ class History(object):
         """The addressee closes and the message is written before the bus has announced that."""
         rng = self.rng
         others = [c for c in self.usable() if c is not S and not self.mc(c).q]
-        if not others:
-            return
+        if not others or not self.mc(S).negotiated or self.mc(S).q:
+            return self.op_send(S)
         R = rng.choice(others)
         a = rng.choice([1, 2, self.M])
         mr = self.mc(R)
@@ -831,7 +907,7 @@ class History(object):
         u = R.unique
         R.close()
         serial, data = self.encode(S, spec)
-        cls = "%s/closing/eq/first" % spec.kind
+        cls = "recipient-closing"
         for p in spec.fds:
             p.op_class = cls
         self.step("%s from=%s serial=%d dest=%s(closing) attached=%d" % (spec.kind, self.name_of(S), serial, u.decode(), a))
@@ -839,7 +915,7 @@ class History(object):
         ok = self.write(S, [(data, [p.fd for p in spec.fds])])
         pre = self.model.absorb(self.mc(S), spec.fds, True)
         if pre is None:
-            o = self.model.route(self.mc(S), spec.mtype, None if False else spec.dest, spec.h, len(data))
+            self.model.route(self.mc(S), spec.mtype, spec.dest, spec.h, len(data))    # claims the descriptors
         self.await_gone(u)
         self.forget(R)
         alive = True
@@ -861,7 +937,7 @@ class History(object):
         for uu, recs in boxes.items():
             for rec in recs:
                 if rec.msg.known().get(7) == (S.unique) and rec.msg.serial == serial and rec.msg.type == spec.mtype:
-                    self.violation("unexpected-delivery:closing:%s" % cls, "message for a closed connection delivered to %s" % uu.decode())
+                    self.violation("unexpected-delivery:%s" % cls, "message for a closed connection delivered to %s" % uu.decode())
         self.part.sig("recipient-closes", spec.kind, min(a, 3))
         self.part.count("outcome:recipient-closing")
         self.check_held(cls)
@@ -904,38 +980,6 @@ class History(object):
             self.part.count("queued-descriptors-seen-inside-bus")
         return True
 
-    def drain_inflight(self, R):
-        """R can read again: everything accepted for it meanwhile must arrive, once, in order, intact."""
-        mr = self.mc(R)
-        if not mr.inflight:
-            return
-        R.barrier()
-        recs = R.take_inbox()
-        self.judge_generic({R.unique: recs}, "drain")
-        probes = [rec for rec in recs if rec.msg.known().get(3) != b"Filler" and rec.msg.known().get(7) != b"org.freedesktop.DBus"]
-        exp = list(mr.inflight)
-        mr.inflight = []
-        self.part.count("drained-messages", len(exp))
-        keys = [(rec.msg.known().get(7), rec.msg.serial) for rec in probes]
-        for i, (su, serial, fds, mtype) in enumerate(exp):
-            if (su, serial) not in keys:
-                self.violation("lost:queued-for-slow-recipient", "a message with %d descriptors accepted for %s while it "
-                               "was not reading never arrived" % (len(fds), R.unique.decode()))
-                continue
-            if keys.count((su, serial)) > 1:
-                self.violation("delivered-%d-times:queued" % keys.count((su, serial)), "queued message delivered repeatedly")
-            rec = probes[keys.index((su, serial))]
-            self.compare_fds(rec, fds, "queued-for-slow-recipient", R.unique.decode())
-        order = [k for k in keys if k in [(e[0], e[1]) for e in exp]]
-        per_sender = {}
-        for su, serial in order:
-            per_sender.setdefault(su, []).append(serial)
-        for su, serials in per_sender.items():
-            wanted = [e[1] for e in exp if e[0] == su and (su, e[1]) in keys]
-            if serials != wanted:
-                self.violation("order:queued", "queued messages of one sender arrived out of order")
-        self.part.sig("drain", len(exp))
-
     def op_unstall(self, R):
         rng = self.rng
         mr = self.mc(R)
@@ -957,7 +1001,7 @@ class History(object):
     def run(self):
         rng = self.rng
         self.setup()
-        nsteps = rng.randint(6, 22)
+        nsteps = rng.randint(8, 30)
         for _ in range(nsteps):
             if self.failed:
                 break
@@ -1035,6 +1079,10 @@ class History(object):
             self.factory.close()
         if self.daemon is not None and not self.daemon.stopped:
             st, err = self.daemon.stop()
+            if "Failed to close file descriptor" in err:
+                # close_unix_fds() got EBADF: the descriptor had been closed before (closed twice)
+                self.part.violation("%s:double-close" % PROP, "the bus logged a failing close() of a passed descriptor (%s)"
+                                    % self.cur_cls, self.witness({"stderr": err[-2000:]}))
             for cls, site, text in self.daemon.problems():
                 self.part.violation("%s:%s:%s" % (PROP, cls, site), "bus reported %s (%s)" % (cls, self.cur_cls),
                                     self.witness({"stderr": text[-3000:]}))
